@@ -98,7 +98,7 @@ func (b *vc02Builder) safeSearch(t vc02T, l *vc02ref.List) (f *safesearch.Filter
 
 	f, err := safesearch.New(&safesearch.Config{
 		Refreshable: &refreshable.Config{
-			Logger:    slogutil.NewDiscardLogger(),
+			Logger: slogutil.NewDiscardLogger(),
 			// Never contacted: the cache file exists and stale data is accepted.
 			URL:       &url.URL{Scheme: "http", Host: "127.0.0.1:1", Path: "/" + l.ID},
 			ID:        internal.ID(l.ID),
